@@ -36,8 +36,18 @@ def case_strategy(draw, ctx):
         # how the user's function treats its argument: numpy-polymorphic polynomial, scalar-only (math module),
         # or a constant that returns a plain float whatever it is given (e.g. "mean level")
         base["fun_kind"] = draw(st.sampled_from(["poly", "scalar-only", "constant", "mean-of-y"]))
-        return base
-    return draw(rfagen.rfa_case(ctx))
+        return _history(draw, base)
+    return _history(draw, draw(rfagen.rfa_case(ctx)))
+
+
+def _history(draw, case):
+    """what else happens around the call: another strategy object (other n) built in between, and - at the Weaver -
+    a same-length re-gridding and / or a refused recreate request before the valid one"""
+    if draw(st.integers(0, 2)) == 0:
+        n2 = draw(st.integers(2, 12).filter(lambda v: v != case["n"]))
+        case["decoy"] = dict(strategy=draw(st.sampled_from(gens.STRATEGY_NAMES)), n=n2)
+    case["pre"] = draw(st.sampled_from([[], [], [], ["regrid"], ["refused"], ["regrid", "refused"], ["refused-n"]]))
+    return case
 
 
 def _build(case):
@@ -85,7 +95,15 @@ def grid_predicate(case, xs, what):
 def body(ctx, case):
     obj, x, y, wkw = _build(case)
     length = (len(case["x"]) - 1) * case["n"] + 1
+    if case.get("decoy"):
+        # a second strategy object with another n is created before the first one is evaluated
+        d = case["decoy"]
+        decoy = rfagen.strategy_class(d["strategy"])(x, y, d["n"])
     xs, ys = rfagen.check_pair(obj.rfa(), length, f"{case['strategy']}.rfa()")
+    if case.get("decoy"):
+        dl = (len(case["x"]) - 1) * d["n"] + 1
+        dx, _ = rfagen.check_pair(decoy.rfa(), dl, f"{d['strategy']}.rfa() (built after another strategy object)")
+        grid_predicate(dict(case, n=d["n"]), dx, "rfa() of the second object")
     grid_predicate(case, xs, "rfa()")
     # what the caller does with the returned arrays must not leak into a second call on the same strategy object
     keep_x, keep_y = xs.copy(), ys.copy()
@@ -103,11 +121,59 @@ def body(ctx, case):
     for op, arg in (("scale_y", 2), ("shift_y", 1.0), ("scale_y", 2.0)):
         getattr(w, op)(arg)
         rfagen.check_pair(w.get(), length, f"Weaver after {op}({arg!r})")
+    if case.get("pre"):
+        weaver_history(case, x, y, wkw)
     cls = rfagen.classes(case)
+    for p in case.get("pre") or []:
+        cls.append("pre:" + p)
+    if case.get("decoy"):
+        cls.append("second-object-other-n")
     if case["strategy"] == "FunctionRFA":
         cls.append("fun:" + case.get("fun_kind", "poly"))
     nontrivial = (not gens.is_uniform(case["x"])) or bool(case["kw"]) or case["strategy"] == "FunctionRFA"
     ctx.record(case, cls, nontrivial)
+
+
+def weaver_history(case, x, y, wkw):
+    """The Weaver is not fresh when recreate_from_average is asked for: the series was re-gridded to the same number
+    of samples, and / or a recreate request was refused just before.  Judged against the observable series
+    (copies of get()) at the moment of the valid request."""
+    n = case["n"]
+    w = Weaver(x, y)
+    if "regrid" in case["pre"] and len(case["x"]) >= 3:
+        cx = np.array(case["x"], dtype=float)
+        nx = cx.copy()
+        nx[1:-1] = cx[1:-1] + 0.25 * (cx[2:] - cx[1:-1])
+        w.interpolate(new_x=nx, method="linear")
+    if "refused-n" in case["pre"]:
+        try:
+            w.recreate_from_average(1, **wkw)
+        except ValueError:
+            pass
+        else:
+            raise Violation("Weaver.recreate_from_average(n=1) was accepted")
+    if "refused" in case["pre"]:
+        try:
+            w.recreate_from_average(n, rfa_class=rfa_mod.FunctionRFA)      # no sampling function: cannot succeed
+        except Exception:  # noqa: BLE001 - how it is refused is not C04's subject; what the next request returns is
+            pass
+    # (whether a refused request leaves the series untouched is C20's subject: here the next valid request is judged
+    # against whatever the Weaver holds now - it must still be two equal-length arrays on the n-fold grid)
+    held = w.get()
+    if len(held[0]) != len(held[1]):
+        raise Violation(f"after a refused recreate_from_average request the Weaver holds {len(held[0])} abscissae and "
+                        f"{len(held[1])} values")
+    cur_x, cur_y = (np.array(a, dtype=float, copy=True) for a in w.get())
+    length = (len(cur_x) - 1) * n + 1
+    w.recreate_from_average(n, **wkw)
+    what = "recreate_from_average after " + " + ".join(case["pre"])
+    wx, wy = rfagen.check_pair(w.get(), length, what)
+    grid_predicate(dict(case, x=[float(v) for v in cur_x]), wx, what)
+    cls = wkw["rfa_class"]
+    kw = {k: v for k, v in wkw.items() if k != "rfa_class"}
+    dx, dy = cls(cur_x, cur_y, n, **kw).rfa()
+    if not (np.array_equal(wx, dx) and np.allclose(wy, dy, rtol=1e-12, atol=0, equal_nan=False)):
+        raise Violation(f"{what}: differs from the strategy applied to the series the Weaver held")
 
 
 @st.composite
